@@ -13,7 +13,7 @@ from .calls import CallMixin
 from .expr import ExprMixin
 from .extract import Repo
 from .lazy import LazyMixin
-from .solve import discharge, satisfiable
+from .solve import discharge_all, satisfiable
 from .sorts import Unsupported, World
 from .spec import DslMixin, SpecSet
 from .stmt import StmtMixin
@@ -55,7 +55,7 @@ def make_world(specs: SpecSet, repo_root: str | None = None) -> World:
 
 
 def verify_function(w: World, specs: SpecSet, fq: str, timeout_ms: int = 10000, seed: int = 0,
-                    max_paths: int = 3000) -> FnReport:
+                    max_paths: int = 3000, jobs: int = 8) -> FnReport:
     t0 = time.time()
     rep = FnReport(fq)
     try:
@@ -139,17 +139,18 @@ def verify_function(w: World, specs: SpecSet, fq: str, timeout_ms: int = 10000, 
         return rep
     # discharge
     ax = w.global_axioms()
-    for ob in eng.obligations.values():
-        r = discharge(ob, ax, timeout_ms, seed)
+    obs = list(eng.obligations.values())
+    res = discharge_all(obs, ax, timeout_ms, seed, jobs)
+    for ob in obs:
+        r = res[ob.oid]
         rep.solver_s += r["time"]
         d = {"id": ob.oid, "func": ob.func, "kind": ob.kind, "clause": ob.clause, "line": ob.line,
              "status": r["status"], "time": round(r["time"], 3), "backend": r["backend"]}
         if r["status"] != "proved":
             d["reason"] = r.get("reason")
             d["failed_part"] = r.get("failed_part")
-            m = r.get("model")
-            if m is not None:
-                d["model"] = _model_text(m)
+            if r.get("model"):
+                d["model"] = r["model"][:6000]
         rep.obligations.append(d)
     rep.wall_s = time.time() - t0
     return rep
